@@ -168,3 +168,17 @@ Theorem shared_context_interferes :
   thread_obs 0 (observe_shared nat demo_pal None [ESet 0 0; ESet 1 1; EGet 0; EClear 1; EClear 0])
   <> [Some (demo_pal 0)].
 Proof. vm_compute. intro H. discriminate H. Qed.
+
+(* ---- every output of every history is its fresh-process result (the whole output list characterised) ---- *)
+Definition fresh_out {D O : Type} (pal : D -> list str) (enc : option (list str) -> D -> res O) (o : op D)
+  : option (res O) :=
+  match o with Construct _ => None | Encode d => Some (enc (Some (pal d)) d) end.
+
+Theorem run_outputs_fresh (D O : Type) (pal : D -> list str) (enc : option (list str) -> D -> res O) s h :
+  snd (run D O pal enc s h) = map (fresh_out pal enc) h.
+Proof.
+  revert s; induction h as [|o h IH]; intro s; [reflexivity|].
+  cbn [run map]. destruct o as [d|d]; cbn [step fresh_out].
+  - specialize (IH s). destruct (run D O pal enc s h) as [s2 outs]. cbn [snd] in *. rewrite IH. reflexivity.
+  - specialize (IH None). destruct (run D O pal enc None h) as [s2 outs]. cbn [snd] in *. rewrite IH. reflexivity.
+Qed.
